@@ -20,6 +20,7 @@ EVID = os.path.join(ROOT, "evidence") if REPO == "/repo" else os.path.join(BUILD
 REPLAYS = os.path.join(EVID, "replays")
 NCPU = os.cpu_count() or 4
 GUARD = "MANAGARM_FRIGG_VERIF"
+PER_FILE_TIMEOUT = int(os.environ.get("VERIF_COQC_TIMEOUT", "900"))
 
 STD_AXIOMS = {  # axioms declared by the standard library itself; allowed if named in the trusted base
     "functional_extensionality_dep", "FunctionalExtensionality.functional_extensionality_dep",
@@ -111,7 +112,8 @@ def coq_make(targets, timeout=3000, jobs=NCPU):
     os.makedirs(os.path.join(BUILD, "extract"), exist_ok=True)
     with _Lock("coq"):
         coq_project()
-        rc, o, e = sh(["make", "-k", "-j%d" % jobs] + list(targets), cwd=COQ, timeout=timeout)
+        # every coqc runs under a shell timeout: an edit that makes a tactic loop must fail the file, not hang the run
+        rc, o, e = sh(["make", "-k", "-j%d" % jobs, "COQC=timeout %d coqc" % PER_FILE_TIMEOUT] + list(targets), cwd=COQ, timeout=timeout)
     return rc == 0, o + e
 
 
